@@ -6,6 +6,7 @@ use vstd::std_specs::hash::*;
 verus! {
 broadcast use vstd::std_specs::hash::group_hash_axioms;
 //@include prelude/cred_env.rs
+//@include prelude/std_misc.rs
 
 
 // ---------------------------------------------------------------- more of stun-rs, abstract
